@@ -39,6 +39,9 @@ def extract(ctx):
     ]
     for h in hooks:
         mod = rw.loop_modified(docs, raw, h['name'], h['k'])
+        # the spin loops may or may not keep the observed version in a local `v`: the hook takes a null pointer when there is none
+        if 'v' not in mod:
+            h['args'] = '(int*)0, (int*)&wait'
         missing = [x for x in mod if x not in h['vars']]
         log['loop %s.%d modified set (clang)' % (h['name'], h['k'])] = mod
         if missing:
